@@ -114,6 +114,12 @@ func runPool(c PoolCase, count bool) *poolRun {
 				p.Stop()
 				running, dead = false, false
 				res.stopRets = append(res.stopRets, tick())
+			case "sched":
+				// a periodic job (as the database schedules its collector): ticks are not counted, but the loop
+				// behind it is one more sender that Stop has to get rid of
+				if running && !stopCalled {
+					p.Sched(ctx, wpool.Event{Caller: "periodic", Fn: func(context.Context) error { return nil }}, time.Millisecond)
+				}
 			case "send":
 				j := &jobRec{id: len(res.jobs), kind: op.Job}
 				res.jobs = append(res.jobs, j)
@@ -135,7 +141,7 @@ func runPool(c PoolCase, count bool) *poolRun {
 							gate.Wait()
 						}
 						gateM.Unlock()
-					case "ctx":
+					case "ctx", "ctxresend":
 						done := jctx.Done()
 						sel := detsync.NewSelect(1)
 					L:
@@ -148,6 +154,20 @@ func runPool(c PoolCase, count bool) *poolRun {
 								goto L
 							}
 						}
+					}
+					if j.kind == "resend" || j.kind == "ctxresend" {
+						// a job hands a follow-up job to the pool it runs on ("ctxresend": once the pool is being
+						// stopped - that Send must return at once, or Stop, which waits for this job, never returns)
+						c := &jobRec{id: len(res.jobs), kind: "noop"}
+						res.jobs = append(res.jobs, c)
+						c.sendCall = tick()
+						p.Send(ctx, wpool.Event{Caller: fmt.Sprintf("job%d", c.id), Fn: func(context.Context) error {
+							c.starts = append(c.starts, tick())
+							c.ends = append(c.ends, tick())
+							return nil
+						}})
+						c.sendRet = tick()
+						c.whileRunning = false // sent from inside the pool at an unknown point of its life: only at-most-once is demanded
 					}
 					j.ends = append(j.ends, tick())
 					return nil
@@ -231,14 +251,14 @@ func judgePool(c PoolCase, pr *poolRun) *ev.Result {
 			r.Failf("job %d (%s) was executed %d times", j.id, j.kind, len(j.starts))
 			return r
 		}
-		if j.whileRunning && !c.Lifecyle && j.kind != "ctx" && j.sendRet < pr.idleAt {
+		if j.whileRunning && !c.Lifecyle && j.kind != "ctx" && j.kind != "ctxresend" && j.sendRet < pr.idleAt {
 			// accepted while the pool was running, and no Stop was called from then until quiescence.
 			// Jobs that wait for their context occupy a worker until Stop: the rule only applies while
 			// at least one worker of this generation remains available.
 			g := genStart(j)
 			ctxJobs := 0
 			for _, o := range pr.jobs {
-				if o.kind == "ctx" && o.sendCall > g && o.sendCall < pr.idleAt {
+				if (o.kind == "ctx" || o.kind == "ctxresend") && o.sendCall > g && o.sendCall < pr.idleAt {
 					ctxJobs++
 				}
 			}
@@ -270,7 +290,7 @@ func judgePool(c PoolCase, pr *poolRun) *ev.Result {
 					r.Failf("job %d started at %d, after Stop had returned at %d", j.id, st, sr)
 					return r
 				}
-				if st < pr.stopCalls[i] && (len(j.ends) == 0 || j.ends[0] > sr) && j.kind != "ctx" {
+				if st < pr.stopCalls[i] && (len(j.ends) == 0 || j.ends[0] > sr) && j.kind != "ctx" && j.kind != "ctxresend" {
 					r.Failf("Stop returned at %d although job %d, started at %d, had not finished", sr, j.id, st)
 					return r
 				}
@@ -370,6 +390,10 @@ func c16Catalogue() []PoolCase {
 		{Workers: 1, Lifecyle: true, Actors: [][]POp{{{K: "run"}}, {{K: "send", Job: "noop"}}, {{K: "stop"}}}},
 		// callers whose context is already cancelled, or is cancelled as soon as Send has returned
 		{Workers: 1, Pre: run, Post: stop, Actors: [][]POp{{{K: "send", Job: "gate"}, {K: "send", Job: "noop", Cctx: 1}, {K: "send", Job: "noop", Cctx: 2}, {K: "send", Job: "noop"}, {K: "send", Job: "noop", Cctx: 1}, {K: "send", Job: "noop", Cctx: 2}}}},
+		// jobs that hand follow-up jobs to their own pool, also while it is being stopped; a periodic job
+		{Workers: 1, Pre: run, Actors: [][]POp{{{K: "send", Job: "ctxresend"}, {K: "send", Job: "noop"}}, {{K: "stop"}}}},
+		{Workers: 2, Pre: run, Post: stop, Actors: [][]POp{{{K: "send", Job: "resend"}, {K: "send", Job: "resend"}, {K: "send", Job: "noop"}}}},
+		{Workers: 1, Pre: run, Actors: [][]POp{{{K: "sched"}, {K: "send", Job: "noop"}, {K: "stop"}}, {{K: "send", Job: "noop"}}}},
 		// the context given to Run is cancelled by its owner; Stop is called afterwards and must still wait
 		{Workers: 1, Pre: run, Actors: [][]POp{{{K: "send", Job: "gate"}, {K: "send", Job: "noop"}, {K: "cancelrun"}, {K: "send", Job: "noop"}, {K: "stop"}}}},
 		{Workers: 2, Pre: run, Actors: [][]POp{{{K: "send", Job: "ctx"}, {K: "send", Job: "noop"}, {K: "send", Job: "noop"}}, {{K: "cancelrun"}, {K: "stop"}, {K: "run"}, {K: "send", Job: "noop"}}}, Post: stop},
@@ -413,7 +437,7 @@ func TestC16Enum(t *testing.T) {
 func genPool(t *rapid.T) PoolCase {
 	c := PoolCase{Workers: rapid.IntRange(1, 2).Draw(t, "workers")}
 	c.Lifecyle = rapid.IntRange(0, 3).Draw(t, "lifecycle") == 0
-	jobKinds := []string{"noop", "noop", "noop", "gate", "gate", "ctx"}
+	jobKinds := []string{"noop", "noop", "noop", "gate", "gate", "ctx", "resend", "ctxresend"}
 	if c.Lifecyle {
 		na := rapid.IntRange(2, 3).Draw(t, "actors")
 		for a := 0; a < na; a++ {
